@@ -565,6 +565,43 @@ func (s *Scanner) scanStatement(stmt ast.Statement, result *ScanResult) {
 		s.scanDeleteStatement(st, result)
 	case *ast.SetOperation:
 		s.scanSetOperation(st, result)
+	default:
+		// Any other statement (MERGE, DDL, ...): look at what it contains
+		s.scanChildren(stmt, result, nil)
+	}
+}
+
+// scanChildren scans everything a node contains, except the children listed in done
+// (those the caller has already scanned with their own context). An injection pattern
+// is reported wherever it is written: inside a sub-query, a CASE, an IN list, a CTE,
+// a join condition, a RETURNING list and so on.
+func (s *Scanner) scanChildren(node ast.Node, result *ScanResult, done []ast.Node) {
+	if node == nil {
+		return
+	}
+children:
+	for _, child := range node.Children() {
+		if child == nil {
+			continue
+		}
+		for _, d := range done {
+			if d == child {
+				continue children
+			}
+		}
+		s.scanNode(child, result)
+	}
+}
+
+// scanNode scans one node of any kind.
+func (s *Scanner) scanNode(node ast.Node, result *ScanResult) {
+	switch c := node.(type) {
+	case ast.Statement:
+		s.scanStatement(c, result)
+	case ast.Expression:
+		s.scanExpression(c, result, "expression")
+	default:
+		s.scanChildren(c, result, nil)
 	}
 }
 
@@ -584,16 +621,29 @@ func (s *Scanner) scanSelectStatement(stmt *ast.SelectStatement, result *ScanRes
 	for _, col := range stmt.Columns {
 		s.scanExpressionForDangerousFunctions(col, result)
 	}
+
+	// Everything else the statement contains: CTEs, derived tables, join conditions,
+	// GROUP BY, ORDER BY, window definitions, LIMIT/OFFSET expressions, ...
+	done := []ast.Node{stmt.Where, stmt.Having}
+	for _, col := range stmt.Columns {
+		done = append(done, col)
+	}
+	s.scanChildren(stmt, result, done)
 }
 
 // scanInsertStatement analyzes INSERT for injection patterns.
 func (s *Scanner) scanInsertStatement(stmt *ast.InsertStatement, result *ScanResult) {
 	// Check values for suspicious patterns (multi-row support)
+	var done []ast.Node
 	for _, row := range stmt.Values {
 		for _, val := range row {
 			s.scanExpressionForDangerousFunctions(val, result)
+			done = append(done, val)
 		}
 	}
+
+	// The source query, CTEs, ON CONFLICT / ON DUPLICATE KEY assignments, RETURNING, ...
+	s.scanChildren(stmt, result, done)
 }
 
 // scanUpdateStatement analyzes UPDATE for injection patterns.
@@ -603,10 +653,8 @@ func (s *Scanner) scanUpdateStatement(stmt *ast.UpdateStatement, result *ScanRes
 		s.scanExpression(stmt.Where, result, "WHERE clause")
 	}
 
-	// Check SET values
-	for _, assignment := range stmt.Assignments {
-		s.scanExpressionForDangerousFunctions(assignment.Value, result)
-	}
+	// SET values, CTEs, FROM, RETURNING, ...
+	s.scanChildren(stmt, result, []ast.Node{stmt.Where})
 }
 
 // scanDeleteStatement analyzes DELETE for injection patterns.
@@ -615,6 +663,9 @@ func (s *Scanner) scanDeleteStatement(stmt *ast.DeleteStatement, result *ScanRes
 	if stmt.Where != nil {
 		s.scanExpression(stmt.Where, result, "WHERE clause")
 	}
+
+	// CTEs, USING, RETURNING, ...
+	s.scanChildren(stmt, result, []ast.Node{stmt.Where})
 }
 
 // scanSetOperation analyzes UNION/EXCEPT/INTERSECT for injection patterns.
@@ -650,6 +701,9 @@ func (s *Scanner) scanExpression(expr ast.Expression, result *ScanResult, contex
 		if e.Expr != nil {
 			s.scanExpression(e.Expr, result, context)
 		}
+	default:
+		// Any other kind of expression (sub-query, CASE, IN list, BETWEEN, CAST, ...)
+		s.scanChildren(expr, result, nil)
 	}
 }
 
@@ -876,10 +930,9 @@ func (s *Scanner) scanFunctionCall(fn *ast.FunctionCall, result *ScanResult) {
 		}
 	}
 
-	// Recursively check function arguments
-	for _, arg := range fn.Arguments {
-		s.scanExpressionForDangerousFunctions(arg, result)
-	}
+	// Recursively check function arguments and whatever else the call contains
+	// (FILTER, ORDER BY inside the call, the OVER clause)
+	s.scanChildrenForDangerousFunctions(fn, result)
 }
 
 // scanExpressionForDangerousFunctions recursively checks for dangerous functions.
@@ -896,6 +949,28 @@ func (s *Scanner) scanExpressionForDangerousFunctions(expr ast.Expression, resul
 		s.scanExpressionForDangerousFunctions(e.Right, result)
 	case *ast.UnaryExpression:
 		s.scanExpressionForDangerousFunctions(e.Expr, result)
+	default:
+		// Any other kind of expression: look for function calls in what it contains;
+		// a sub-query gets the full statement scan.
+		s.scanChildrenForDangerousFunctions(expr, result)
+	}
+}
+
+// scanChildrenForDangerousFunctions applies scanExpressionForDangerousFunctions to
+// everything a node contains.
+func (s *Scanner) scanChildrenForDangerousFunctions(node ast.Node, result *ScanResult) {
+	for _, child := range node.Children() {
+		if child == nil {
+			continue
+		}
+		switch c := child.(type) {
+		case ast.Statement:
+			s.scanStatement(c, result)
+		case ast.Expression:
+			s.scanExpressionForDangerousFunctions(c, result)
+		default:
+			s.scanChildrenForDangerousFunctions(c, result)
+		}
 	}
 }
 
